@@ -250,6 +250,16 @@ impl Metrics {
     }
 }
 
+#[cfg(transparencies_stretto_verif)]
+impl Metrics {
+    pub(crate) fn verif_life(&self) -> Option<(i64, Vec<i64>)> {
+        match self {
+            Metrics::Noop => None,
+            Metrics::Op(m) => Some(m.life.verif_counts()),
+        }
+    }
+}
+
 impl Display for Metrics {
     fn fmt(&self, f: &mut Formatter<'_>) -> std::fmt::Result {
         match self {
